@@ -5,6 +5,7 @@ package main
 
 import (
 	"bytes"
+	"context"
 	"crypto/sha256"
 	"encoding/binary"
 	"encoding/hex"
@@ -468,3 +469,83 @@ func (w *World) Supply(denom string) math.Int {
 }
 
 func (w *World) Ctx() sdk.Context { return w.ctx }
+
+
+// ---------------------------------------------------------------------------
+// One cctp keeper shared by several instances whose *dependencies* are their own.
+//
+// A node shares one cctp keeper object between its deliver, check and query
+// contexts. For the free-running race pass the instances must share exactly
+// that object (and the package-level state of x/cctp) and nothing else;
+// otherwise the detector reports benign races inside the dependencies (the bank
+// keeper's cached module address is appended to by fiattokenfactory's
+// BlacklistedKey). depRouter dispatches every dependency call to the bank /
+// fiattokenfactory keepers of the instance the context belongs to.
+
+type instKeyT struct{}
+
+var instKey = instKeyT{}
+
+type depRouter struct{}
+
+func (depRouter) world(ctx context.Context) *World {
+	return sdk.UnwrapSDKContext(ctx).Value(instKey).(*World)
+}
+
+func (r depRouter) GetBalance(ctx context.Context, addr sdk.AccAddress, denom string) sdk.Coin {
+	return r.world(ctx).BK.GetBalance(ctx, addr, denom)
+}
+
+func (r depRouter) SendCoinsFromAccountToModule(ctx context.Context, senderAddr sdk.AccAddress, recipientModule string, amt sdk.Coins) error {
+	return r.world(ctx).BK.SendCoinsFromAccountToModule(ctx, senderAddr, recipientModule, amt)
+}
+
+func (r depRouter) Burn(ctx sdk.Context, msg *ftftypes.MsgBurn) (*ftftypes.MsgBurnResponse, error) {
+	return r.world(ctx).FTF.Burn(ctx, msg)
+}
+
+func (r depRouter) Mint(ctx sdk.Context, msg *ftftypes.MsgMint) (*ftftypes.MsgMintResponse, error) {
+	return r.world(ctx).FTF.Mint(ctx, msg)
+}
+
+func (r depRouter) GetMintingDenom(ctx context.Context) ftftypes.MintingDenom {
+	return r.world(ctx).FTF.GetMintingDenom(ctx)
+}
+
+// SharedCCTP is one cctp keeper + msg server over a fixed store key.
+type SharedCCTP struct {
+	key *storetypes.KVStoreKey
+	K   *cctpkeeper.Keeper
+	MS  cctptypes.MsgServer
+}
+
+func NewSharedCCTP() *SharedCCTP {
+	ensureConfig()
+	key := storetypes.NewKVStoreKey(cctptypes.StoreKey)
+	k := cctpkeeper.NewKeeper(theCodec(), log.NewNopLogger(), runtime.NewKVStoreService(key), depRouter{}, depRouter{})
+	return &SharedCCTP{key: key, K: k, MS: cctpkeeper.NewMsgServerImpl(k)}
+}
+
+// NewInstance builds a world with its own stores and its own auth/bank/
+// fiattokenfactory keepers, whose cctp keeper is the shared one.
+func (sc *SharedCCTP) NewInstance(kind StoreKind) *World {
+	w := newWorldOpt(kind, theCodec(), true, nil) // own everything...
+	// ...then remount: a fresh multistore in which the cctp store is mounted under the shared key
+	logger := log.NewNopLogger()
+	w.cms = store.NewCommitMultiStore(dbm.NewMemDB(), logger, metrics.NewNoOpMetrics())
+	w.keys[stCCTP] = sc.key
+	for i := 0; i < nStores; i++ {
+		if kind == KindDB {
+			w.dbs[i] = &swapDB{DB: dbm.NewMemDB()}
+			w.cms.MountStoreWithDB(w.keys[i], storetypes.StoreTypeDB, w.dbs[i])
+		} else {
+			w.cms.MountStoreWithDB(w.keys[i], storetypes.StoreTypeIAVL, nil)
+		}
+	}
+	if err := w.cms.LoadLatestVersion(); err != nil {
+		panic(err)
+	}
+	w.ctx = sdk.NewContext(w.cms, cmtproto.Header{Height: 1, ChainID: "verif-1"}, false, logger).WithValue(instKey, w)
+	w.K, w.MS = sc.K, sc.MS
+	return w
+}
